@@ -103,35 +103,53 @@ pub(crate) fn eval_values_with_error(
     }
 }
 
-pub(crate) fn eval(
+/// Parses the values as one script line and runs it in place of the invoking instruction: the line is
+/// given that instruction's position, the instructions it belongs to and (unless the line names its
+/// own) its output variable. A user function needs them to return to the right place.
+pub(crate) fn eval_in_place(
     arguments: &Vec<String>,
+    instructions: &Vec<Instruction>,
+    line: usize,
+    output_variable: Option<String>,
     state: &mut HashMap<String, StateValue>,
     variables: &mut HashMap<String, String>,
     commands: &mut Commands,
     env: &mut Env,
-) -> Result<CommandResult, String> {
+) -> CommandResult {
     if arguments.is_empty() {
-        Ok(CommandResult::Continue(None))
+        CommandResult::Continue(None)
     } else {
         match parse(arguments) {
-            Ok(instruction) => {
+            Ok(mut instruction) => {
+                if let InstructionType::Script(ref mut script_instruction) =
+                    instruction.instruction_type
+                {
+                    if script_instruction.output.is_none() {
+                        script_instruction.output = output_variable;
+                    }
+                }
+
                 let (command_result, _) = runner::run_instruction(
                     commands,
                     variables,
                     state,
-                    &vec![],
+                    instructions,
                     instruction,
-                    0,
+                    line,
                     env,
                 );
 
-                Ok(command_result)
+                match command_result {
+                    CommandResult::Crash(error) => CommandResult::Error(error),
+                    _ => command_result,
+                }
             }
-            Err(error) => Err(error.to_string()),
+            Err(error) => CommandResult::Error(error.to_string()),
         }
     }
 }
 
+#[cfg(test)]
 pub(crate) fn eval_with_error(
     arguments: &Vec<String>,
     state: &mut HashMap<String, StateValue>,
@@ -139,13 +157,16 @@ pub(crate) fn eval_with_error(
     commands: &mut Commands,
     env: &mut Env,
 ) -> CommandResult {
-    match eval(arguments, state, variables, commands, env) {
-        Ok(command_result) => match command_result.clone() {
-            CommandResult::Crash(error) => CommandResult::Error(error),
-            _ => command_result,
-        },
-        Err(error) => CommandResult::Error(error.to_string()),
-    }
+    eval_in_place(
+        arguments,
+        &vec![],
+        0,
+        None,
+        state,
+        variables,
+        commands,
+        env,
+    )
 }
 
 pub(crate) fn eval_with_instructions(
